@@ -348,7 +348,10 @@ def run_units(modname: str, units: list, nproc: int = NPROC, progress=None) -> A
             acc.merge(p)
         return acc
     ctx = mp.get_context("fork")
-    with ctx.Pool(min(nproc, len(units)), initializer=_worker_init) as pool:
+    # FRESH_PROCESS_PER_UNIT: every unit runs in a process forked from the (scan-free) parent, so that module-level state left behind
+    # by one unit cannot mask or fake a finding in another (used by the history / position-independence checks)
+    per_unit = bool(getattr(importlib.import_module(modname), "FRESH_PROCESS_PER_UNIT", False))
+    with ctx.Pool(min(nproc, len(units)), initializer=_worker_init, maxtasksperchild=1 if per_unit else None) as pool:
         it = pool.imap_unordered(_call, [(modname, u) for u in units], chunksize=1)
         while True:
             try:
